@@ -30,13 +30,25 @@ Definition pstatus_eqb (a b : pstatus) : bool :=
   | _, _ => false
   end.
 
-(** what the backend does with one connection that carries commands *)
+(** how lmd talks to the backend: a Livestatus socket (unix/tcp) or the Thruk
+    HTTP API ([http://...] source, peer.go HTTPQuery...).  [ok] is
+    [Peer.lastHTTPRequestSuccessful]: while it is set [tryConnection] skips the
+    tcp connect test and the POST is made straight away. *)
+Inductive transport := Socket | Http (ok : bool).
+
+(** what the backend does with one connection (socket) / one POST (HTTP) that
+    carries commands *)
 Inductive behav :=
-| Accept                         (* reads the commands, no reply (Naemon) *)
-| Reject (code : Z) (msg : str)  (* reads them, replies "code: msg" *)
-| RejectPlain (msg : str)        (* reads them, replies a text without colon *)
-| Drop                           (* connection accepted, bytes discarded, closed *)
-| Refuse.                        (* connect fails: nothing is sent *)
+| Accept                         (* reads the commands; socket: no reply (Naemon), HTTP: rc 0, empty text *)
+| Reject (code : Z) (msg : str)  (* reads them, replies "code: msg" (HTTP: as the text of an rc 0 answer) *)
+| RejectPlain (msg : str)        (* reads them and answers with an error that is not "code: msg":
+                                    socket: a text without colon; HTTP: such a text, a body that is not
+                                    json, a status other than 200, json with rc <> 0, a remote error text
+                                    (all of them well-formed answers: PeerError/ResponseError or plain) *)
+| Drop                           (* socket: connection accepted, bytes discarded, closed *)
+| Refuse                         (* connect fails: nothing is sent *)
+| HttpBroken (received : bool).  (* HTTP: the exchange breaks without an answer; the backend had
+                                    read the request ([true]) or not ([false]) *)
 
 Record peer := mkPeer {
   p_id : str;
@@ -48,7 +60,8 @@ Record peer := mkPeer {
   p_resolve : list pstatus;     (* environment: status changes observed while waiting *)
   p_log : list (list str);      (* backend side: commands received, one entry per connection *)
   p_trace : list (pstatus * behav); (* every connection attempt with the status it was made in *)
-  p_sched : bool                (* ScheduleImmediateUpdate has been called *)
+  p_sched : bool;               (* ScheduleImmediateUpdate has been called *)
+  p_transport : transport
 }.
 
 (** result of SendCommandsWithRetry for one backend *)
@@ -61,10 +74,11 @@ Inductive sres :=
 Definition msg_connerr : str := lit "CONNERR"%string.
 Definition msg_retries : str := lit "RETRIES"%string.
 Definition msg_timeout : str := lit "TIMEOUT"%string.
+Definition msg_httperr : str := lit "HTTPERR"%string.   (* "http error: ..." of HTTPPostQueryResult *)
 
 Definition set_status (s : pstatus) (p : peer) : peer :=
   mkPeer (p_id p) s (match s with Down | Broken => false | _ => p_hasdata p end) (p_stale p)
-         (p_lasterr p) (p_script p) (p_resolve p) (p_log p) (p_trace p) (p_sched p).
+         (p_lasterr p) (p_script p) (p_resolve p) (p_log p) (p_trace p) (p_sched p) (p_transport p).
 
 (** peer.go setNextAddrFromErr for a peer with a single address *)
 Definition conn_failed (err : str) (p : peer) : peer :=
@@ -73,8 +87,21 @@ Definition conn_failed (err : str) (p : peer) : peer :=
              | s => s
              end in
   if p_stale p
-  then mkPeer (p_id p) Down false (p_stale p) err (p_script p) (p_resolve p) (p_log p) (p_trace p) (p_sched p)
-  else mkPeer (p_id p) st1 (p_hasdata p) (p_stale p) err (p_script p) (p_resolve p) (p_log p) (p_trace p) (p_sched p).
+  then mkPeer (p_id p) Down false (p_stale p) err (p_script p) (p_resolve p) (p_log p) (p_trace p) (p_sched p) (p_transport p)
+  else mkPeer (p_id p) st1 (p_hasdata p) (p_stale p) err (p_script p) (p_resolve p) (p_log p) (p_trace p) (p_sched p) (p_transport p).
+
+(** HTTPPostQueryResult: [lastHTTPRequestSuccessful] is set when the http client got
+    any response and cleared when [HTTPClient.Do] failed; nothing to do for sockets *)
+Definition set_httpok (answered : bool) (p : peer) : peer :=
+  match p_transport p with
+  | Socket => p
+  | Http _ => mkPeer (p_id p) (p_status p) (p_hasdata p) (p_stale p) (p_lasterr p) (p_script p) (p_resolve p)
+                     (p_log p) (p_trace p) (p_sched p) (Http answered)
+  end.
+
+(** the tcp connect test of tryConnection is skipped *)
+Definition http_ok (p : peer) : bool :=
+  match p_transport p with Http ok => ok | Socket => false end.
 
 Definition next_behav (p : peer) : behav * list behav :=
   match p_script p with
@@ -89,7 +116,7 @@ Definition attempt (p : peer) (cmds : list str) (received sched : bool) : peer :
   mkPeer (p_id p) (p_status p) (p_hasdata p) (p_stale p) (p_lasterr p) rest (p_resolve p)
          (if received then p_log p ++ [cmds] else p_log p)
          (p_trace p ++ [(p_status p, b)])
-         (if sched then true else p_sched p).
+         (if sched then true else p_sched p) (p_transport p).
 
 (** peer.go SendCommandsWithRetry + SendCommands + the command branch of query.
     [retried] = the Go variable [retries > 0]. *)
@@ -106,20 +133,31 @@ Fixpoint send_retry (fuel : nat) (retried : bool) (p : peer) (cmds : list str) :
             let p' := set_status s p in
             send_retry fuel' retried
               (mkPeer (p_id p') (p_status p') (p_hasdata p') (p_stale p') (p_lasterr p') (p_script p')
-                      rest (p_log p') (p_trace p') (p_sched p')) cmds
+                      rest (p_log p') (p_trace p') (p_sched p') (p_transport p')) cmds
         end
     | Up | Syncing =>
         match fst (next_behav p) with
-        | Accept => (attempt p cmds true true, ROk)
+        | Accept => (set_httpok true (attempt p cmds true true), ROk)
         | Drop => (attempt p cmds false true, ROk)
-        | Reject code msg => (attempt p cmds true false, RErr code msg)
+        | Reject code msg => (set_httpok true (attempt p cmds true false), RErr code msg)
         | RejectPlain msg =>
-            let p' := conn_failed msg (attempt p cmds true false) in
+            (* plain error or PeerError of kind ResponseError: the backend is marked failed,
+               lastError is returned, the batch is NOT sent again *)
+            let p' := conn_failed msg (set_httpok true (attempt p cmds true false)) in
+            (p', RErr 500 (p_lasterr p'))
+        | HttpBroken rc =>
+            (* "http error: ..." is a plain error: no retry either *)
+            let p' := conn_failed msg_httperr (set_httpok false (attempt p cmds rc false)) in
             (p', RErr 500 (p_lasterr p'))
         | Refuse =>
-            let p' := conn_failed msg_connerr (attempt p cmds false false) in
-            if retried then (p', RErr 500 msg_retries)
-            else send_retry fuel' true p' cmds
+            if http_ok p
+            then (* no connect test was made: the POST itself fails, plain error *)
+              let p' := conn_failed msg_httperr (set_httpok false (attempt p cmds false false)) in
+              (p', RErr 500 (p_lasterr p'))
+            else (* GetConnection: PeerError of kind ConnectionError, the only error that is retried *)
+              let p' := conn_failed msg_connerr (attempt p cmds false false) in
+              if retried then (p', RErr 500 msg_retries)
+              else send_retry fuel' true p' cmds
         end
     end
   end.
